@@ -40,7 +40,7 @@ CLAIMS["C10"] = dict(
          "Side conditions of the in-place sparse assignment (mask conformance, alignment with one assembled block, sole contributor, no complex->real downcast) are obligations.",
     design_ref="DESIGN.md section 4 C10",
     technique="contract-based deductive verification: class invariant + symbolic sparse-block execution of the real set_link_exponents, VCs to z3",
-    note=OPS_NOTE + " scipy M[rows,cols]=vals contract assumed. The solver-side trigger (update refreshes when A changes) belongs to the TDGLSolver.update unit.")
+    note=OPS_NOTE + " scipy M[rows,cols]=vals contract assumed. The solver-side trigger is decided on the real TDGLSolver.update (callees stubbed): at every Euler step the operators hold the latest total vector potential; the defect found there (stale operators under a slow ramp) was repaired by a fix: commit.")
 CLAIMS["C06"] = dict(
     category="proof",
     text="Pinned-row stencil of the real build_laplacian (row of a pinned site is exactly the identity entry, free sites get no identity row, no "
@@ -72,6 +72,17 @@ CLAIMS["C17"] = dict(
     design_ref="DESIGN.md section 4 C17",
     technique="contract-based deductive verification: fixpoint VCs on the real step function and operators (z3/ring); bounded native stand-in for rounding",
     note=OPS_NOTE + " A5 at zero right-hand side. dt growth is the C12 window rule at delta=0.")
+
+CLAIMS["C12"] = dict(
+    category="proof",
+    text="Loop invariant with a ghost power function on the real retry loop of adaptive_euler_step (solve_for_psi_squared abstracted by its contract): "
+         "returned dt = dt_in * multiplier^(number of refusals) = the dt of the answered attempt, never returns a refused result, raises only after a "
+         "refusal and only when not adaptive or the retries are exhausted. On the real update() (callees stubbed by contracts, screening loop cut): dt "
+         "returned in (0, dt_max], equals dt_init with adaptivity off, the window rule min(1/2(dt + dt_init/delta), dt_max) with delta the mean of the last "
+         "`window` entries after step > window, history grows by one per step. All option values, all histories, no bound.",
+    design_ref="DESIGN.md section 4 C12",
+    technique="contract-based deductive verification: loop invariants + modular callee contracts on the real methods, VCs to z3",
+    note=TRUST + " Options are assumed to satisfy validate() plus dt_init>0, max_solve_retries>=0, adaptive_window>=1. The 1e-10 floor on delta is part of the stated rule.")
 
 NA = {}
 
